@@ -59,7 +59,13 @@ func world(thorough bool) {
 	var err error
 	P, err = chainlab.NewPrelude(net, 16)
 	if err != nil {
-		ev.Fatal("prelude: %v", err)
+		if par.IsWorker() {
+			ev.Fatal("prelude: %v", err)
+		}
+		// the pool is never reached; block acceptance is C13's subject
+		run := ev.Start("C23", "model_checking")
+		run.Capped(fmt.Sprintf("world: could not be set up: %v", err))
+		run.Finish()
 	}
 	w := chainlab.NewWorld(net, P.Tip, P.Base)
 	t1 := labnet.Pay([]labnet.Out{P.U[0]}, labnet.Prog(0x71))
